@@ -655,8 +655,12 @@ def boolSym : List (String × String) := [("And", "and"), ("Or", "or")]
 def symOf (tbl : List (String × String)) (op : String) : Option String := (tbl.find? (·.1 == op)).map (·.2)
 def opOf (tbl : List (String × String)) (sym : String) : Option String := (tbl.find? (·.2 == sym)).map (·.1)
 
+def splitAtColon : List Char → List Char × List Char
+  | [] => ([], [])
+  | c :: rest => if c == ':' then ([], rest) else ((c :: (splitAtColon rest).1), (splitAtColon rest).2)
+
 /-- the text of a constant is its `repr`: the part after `<type>:` -/
-def litText (c : String) : String := ((c.splitOn ":").drop 1 |> String.intercalate ":")
+def litText (c : String) : String := String.ofList (splitAtColon c.toList).2
 
 def isIdentStart (ch : Char) : Bool := ch.isAlpha || ch == '_'
 
@@ -673,10 +677,7 @@ def atomOf (tok : String) : Q :=
       else .lit ("float:" ++ tok)
 
 def splitTag (t : String) : String × String :=
-  match t.splitOn ":" with
-  | [a] => (a, "")
-  | a :: rest => (a, String.intercalate ":" rest)
-  | [] => ("", "")
+  (String.ofList (splitAtColon t.toList).1, String.ofList (splitAtColon t.toList).2)
 
 /-- a non-call, non-lambda node of the text format from the texts of its children -/
 def wassemble (t : String) (parts : List (List String)) : Option (List String) :=
@@ -723,7 +724,10 @@ def composite (ty : String) (fs : List Q) : Option Q :=
     | _ => none
   else if ty == "attr" then match fs with
     | [v, .lit c] =>
-      if c.startsWith "str:'" && c.endsWith "'" then some (.node ("attr:" ++ ((c.drop 5).dropEnd 1).toString) [v]) else none
+      match c.toList with
+      | 's' :: 't' :: 'r' :: ':' :: '\'' :: rest =>
+        if rest.getLast? == some '\'' then some (.node ("attr:" ++ String.ofList rest.dropLast) [v]) else none
+      | _ => none
     | _ => none
   else if ty == "subscript" then match fs with
     | [v, i] => some (.node "sub" [v, i])
